@@ -83,7 +83,9 @@ class WebSocket(object):
             if _url.port else
             (443 if self.scheme == 'wss' else 80)
         )
-        self._host_port = "{}:{}".format(self.host, self.port)
+        # An IPv6 literal is written in brackets wherever a port may follow
+        self._host = '[{}]'.format(self.host) if ':' in self.host else self.host
+        self._host_port = "{}:{}".format(self._host, self.port)
         self.resource = _url.path or '/'
         if _url.query:
             self.resource = "{}?{}".format(self.resource, _url.query)
